@@ -183,6 +183,8 @@ type Machine struct {
 	curFn            *ssa.Function
 	curPos           token.Pos
 	civSeen          []*Civil
+	globalWrites     int
+	initDepth        int
 	deferPos         token.Pos
 	nextNid          int
 	lastIntrSt       invStatus
@@ -521,6 +523,8 @@ func (m *Machine) resetRun() {
 	m.ghostDepth = 0
 	m.timeNow = nil
 	m.chanWaits = nil
+	m.globalWrites = 0
+	m.initDepth = 0
 	m.civSeen = nil
 	m.nextNid = 1
 	m.deferPos = token.NoPos
